@@ -70,9 +70,9 @@ func c18ExhCount(tier string) int {
 
 func c18Seeded(tier string) int {
 	if tier == "thorough" {
-		return 6000
+		return 10000
 	}
-	return 200
+	return 1000
 }
 
 func (p *c18) NumCases(tier string) int {
